@@ -5,7 +5,7 @@
    steps return the state they were given, whatever the state and the arguments, and outside its
    contract every operation raises exactly the documented exception. *)
 From Coq Require Import List Arith NArith ZArith Bool String.
-From CelloV Require Import StringModel StringProofs Generated RobinHood TableModel TableProofs ErrorsModel ErrorsProofs SeqModels SeqProofs SeqTupleProofs SeqErrorProofs SeqTheorems.
+From CelloV Require Import RBTree RBProofs RBRefine IterModel IterSource IterProofs StringModel StringProofs Generated RobinHood TableModel TableProofs ErrorsModel ErrorsProofs SeqModels SeqProofs SeqTupleProofs SeqErrorProofs SeqTheorems.
 Import ListNotations.
 
 (* Array, List, Tuple: a raising step changes nothing — any state, any operation, any argument *)
@@ -90,6 +90,32 @@ Theorem table_absent_key_raises_keyerror : forall (K V : Type) (keq : K -> K -> 
   T_step K V keq hash t (TRem K V k) = (t, TableModel.ORaise V KeyError).
 Proof. exact TableProofs.T_absent_keyerror. Qed.
 Print Assumptions table_absent_key_raises_keyerror.
+
+(* Tree: a raising step (KeyError, FormatError) returns the tree it was given *)
+Theorem tree_failed_op_changes_nothing :
+  forall (K V : Type) (cmp : K -> K -> comparison) (t t' : RBTree.rbt K V) (o : RBTree.op K V) (e : RBTree.texn),
+  RBTree.t_step K V cmp t o = (t', RBTree.ORaise V e) -> t' = t.
+Proof. exact tree_step_raise_unchanged. Qed.
+Print Assumptions tree_failed_op_changes_nothing.
+
+(* Tree: every step agrees with the ordered-map specification, which prescribes KeyError for an absent key and
+   FormatError for resize(n > 0) and leaves the map unchanged in both cases *)
+Theorem tree_step_follows_spec : forall (K V : Type) (cmp : K -> K -> comparison), RBRefine.total_order cmp ->
+  forall (t : RBTree.rbt K V) (o : RBTree.op K V), RBRefine.rb_inv K V cmp t ->
+    RBRefine.rb_inv K V cmp (fst (RBTree.t_step K V cmp t o)) /\
+    RBRefine.abs K V (fst (RBTree.t_step K V cmp t o)) = fst (RBTree.spec_step K V cmp (RBRefine.abs K V t) o) /\
+    snd (RBTree.t_step K V cmp t o) = snd (RBTree.spec_step K V cmp (RBRefine.abs K V t) o).
+Proof. exact step_refines_total. Qed.
+Print Assumptions tree_step_follows_spec.
+
+(* Range: get is total over every int64 key: inside the range the value, outside IndexOutOfBoundsError
+   (a Range has no state to change) *)
+Theorem range_get_outside_raises_index_error : forall r key, IterProofs.in_box r -> (- IterModel.two63 <= key < IterModel.two63)%Z ->
+  IterModel.range_get IterModel.repaired r key =
+  let i := if (key <? 0)%Z then (IterProofs.range_count r + key)%Z else key in
+  if ((0 <=? i) && (i <? IterProofs.range_count r))%Z then IterModel.OVal (IterProofs.range_val r i) else IterModel.ORaise IterModel.EIndex.
+Proof. exact IterProofs.range_get_ok. Qed.
+Print Assumptions range_get_outside_raises_index_error.
 
 (* String: rem of a substring that does not occur raises ValueError and the string is unchanged;
    the allocation model follows the abstract string along every history (C16_history_refines) *)
